@@ -91,6 +91,7 @@ func (spt *Tracker) opWorker(pinF func(*optracker.Operation) error, opChan chan 
 				continue
 			}
 
+			verifGate("clean", op)
 			spt.optracker.Clean(op.Context(), op)
 		case <-spt.ctx.Done():
 			return
@@ -107,6 +108,7 @@ func applyPinF(pinF func(*optracker.Operation) error, op *optracker.Operation) b
 	}
 	op.SetPhase(optracker.PhaseInProgress)
 	err := pinF(op) // call pin/unpin
+	verifGate("returned", op)
 	if err != nil {
 		if op.Cancelled() {
 			// there was an error because
